@@ -128,7 +128,7 @@ CHECKS["C07"] = dict(
           "PROT_NONE guard page so that reads beyond the declared length fault. ALSO: linear_hash_seq / linear_hash / linear_hash_avx512 are translated on every run (while loop, memcpy/memset) and C07_generated_* prove that for every size and every fuel > size the generated functions return Model.linearHash / linearHash512 of the input words and write nothing else."),
     technique="Lean 4 proof by induction over the block loop of a hand-written model, generic in the permutation + correspondence",
     design="§4 C07", note=NOTE_BASE)
-NOTE_NTT = (NOTE_BASE + " Model/Ntt.lean is a HAND model (sequential, functional, no threads, no caller scratch buffer, Nat index arithmetic exact for "
+NOTE_NTT = (NOTE_BASE + " The NTT source is ALSO translated on every run (Gen/NttGen.lean) and bridged to the hand model (DESIGN.NTTGEN.md). Model/Ntt.lean is a HAND model (sequential, functional, no threads, no caller scratch buffer, Nat index arithmetic exact for "
             "log2 n <= 30): its tie to ntt_goldilocks.cpp is the differential campaign only (thread counts 1,2,3,5,16; with/without buffer; dst modes).")
 CHECKS["C03"] = dict(
     text=("Machine-checked theorems (Props/C03.lean, Lemmas/Ntt*.lean 3.2 kLOC) about the hand model Model/Ntt.lean, which mirrors NTT_iters / "
@@ -137,13 +137,13 @@ CHECKS["C03"] = dict(
           "(same/other/NULL) and every input, ntt returns ok and out[k][c] = sum_j in[j][c]*w_d^(jk) in ZMod p, with w_d the library's root "
           "(proved primitive of order 2^d); the source is unchanged for a distinct destination; size 0 / ncols 0 are no-ops; the 'never needed "
           "copy' assert is unreachable (the D6 parity argument). Tie: correspondence model vs compiled code vs an O(n^2) reference over an "
-          "exhaustive small-shape grid + sampled shapes to 2^10 (thorough 2^12), threads 1,2,3,5,16, exact-size redzoned buffers, forked."),
+          "exhaustive small-shape grid + sampled shapes to 2^10 (thorough 2^12), threads 1,2,3,5,16, exact-size redzoned buffers, forked. ALSO (tighter tie): ntt_goldilocks.cpp/.hpp are translated from the current source on every run (Gen/NttGen.lean, heap mode of the translator: pointers as block/offset values, the object as a generated structure, malloc/free, the pointer ping-pong, asserts as none), executed against the compiled code on the same request lines, and bridge theorems (Lemmas/BridgeNtt*.lean, C03_generated_*) prove the generated log2/intt_idx/BR/root/reversePermutation/butterfly stages/passes/NTT_iters/NTT equal to the hand model for 2 <= n <= 2^30, single column block, with or without caller buffer, and the constructor equal to mkObj; C03_generated_construct_and_transform states the DFT property of the GENERATED constructor+NTT with no model hypothesis. Not bridged (executed only): nblock > 1, n = 1 (parcpy path), log2 n in {31,32}."),
     technique="Lean 4 proof by loop invariants / refinement of a hand-written model to the DFT specification + differential correspondence",
     design="§4 C03", note=NOTE_NTT)
 CHECKS["C04"] = dict(
     text=("Machine-checked theorems (Props/C04.lean) on the same model: intt returns out[k][c] = n^-1 * sum_j in[j][c]*w_d^(-jk) for the same "
           "configuration space; INTT(NTT(x)) = x and NTT(INTT(x)) = x as field elements with independent nphase/nblock/dst mode in the two "
-          "calls; NULL destination means in place; source unchanged; no-ops. Tie: round-trip and single-call correspondence campaign."),
+          "calls; NULL destination means in place; source unchanged; no-ops. Tie: round-trip and single-call correspondence campaign. ALSO: the same statements for the GENERATED INTT (C04_generated_*), via the bridge NTT_iters = nttIters (DESIGN.NTTGEN.md)."),
     technique="Lean 4 proof (refinement to the inverse DFT, orthogonality of roots) over a hand-written model + differential correspondence",
     design="§4 C04", note=NOTE_NTT)
 CHECKS["C05"] = dict(
@@ -151,7 +151,7 @@ CHECKS["C05"] = dict(
           "not, every nphase/nblock: extendPol returns ok, N_ext rows, and for each column the unique polynomial f of degree < N with "
           "f(w_dn^j) = in[j] satisfies out[k] = f(7*w_de^k) (coset shift 7 = the library's SHIFT, proved); uniqueness of the interpolant. "
           "The pinned tree violated this (D8: even effective nphase hit assert(0) 'not implemented'; found with replay, repaired by a fix: "
-          "commit that implements the zero-extending in-place bit reversal, which the theorem now covers). Tie: correspondence vs code vs LDE reference."),
+          "commit that implements the zero-extending in-place bit reversal, which the theorem now covers). Tie: correspondence vs code vs LDE reference. ALSO: C05_generated_extendPol — the GENERATED extendPol (translated from the source on every run) satisfies the low-degree-extension statement on any reachable cache state; C05_generated_computeR."),
     technique="Lean 4 proof (refinement to low-degree extension on the coset) over a hand-written model + differential correspondence",
     design="§4 C05", note=NOTE_NTT)
 CHECKS["C19"] = dict(
@@ -159,7 +159,7 @@ CHECKS["C19"] = dict(
           "included) on one object, the k-th result equals the result of the same call on a freshly constructed object "
           "(C19_history_eq_fresh); the only mutable state is the extendPol coefficient cache, which keeps the invariant 'absent or computeR of "
           "the N it is keyed with'; NTT/INTT neither read nor change it. The pinned tree violated this (D9: stale cache after a change of N; "
-          "repaired by a fix: commit). Tie: histories of up to 6 calls on shared vs fresh objects, model vs code."),
+          "repaired by a fix: commit). Tie: histories of up to 6 calls on shared vs fresh objects, model vs code. ALSO: C19_generated_extendPol_ignores_cache for the generated model; the generated cache refresh equals refreshCache (absent / valid / stale); whole histories are compared by execution (generated model vs code vs hand model)."),
     technique="Lean 4 proof by invariant over call histories (refinement: shared object = fresh object) + differential correspondence of histories",
     design="§4 C19", note=NOTE_NTT)
 
